@@ -98,6 +98,28 @@ def rule_a(ctx):
                                                                        builder.args else '?', cls.name)
             rep.add('C18.a', '%s.%s / lookup table keyed by %s' % (cls.name, meth, keycol), f, ok,
                     detail if ok else detail + ' (expected %s -> %s)' % (keycol, valcol))
+            # the key looked up is the argument itself (no case folding, stripping, arithmetic) and what is found is
+            # what is returned
+            from ..astutil import resolve_temp, returned_exprs
+            param = f.params()[1] if len(f.params()) > 1 else None
+            keys = []
+            lookups = []
+            for n in walk_local(f.node):
+                if isinstance(n, ast.Subscript) and isinstance(n.value, ast.Name) and n.value.id == var:
+                    keys.append(resolve_temp(f.node, n.slice))
+                    lookups.append(n)
+                if isinstance(n, ast.Call) and isinstance(n.func, ast.Attribute) and n.func.attr == 'get' and \
+                        isinstance(n.func.value, ast.Name) and n.func.value.id == var and n.args:
+                    keys.append(resolve_temp(f.node, n.args[0]))
+                    lookups.append(n)
+            okk = bool(keys) and all(isinstance(k, ast.Name) and k.id == param for k in keys)
+            rets = returned_exprs(f.node)
+            okr = bool(rets) and all(any(r is l or ast.dump(r) == ast.dump(l) for l in lookups) for r in rets)
+            rep.add('C18.a', '%s.%s / looks up its argument unchanged and returns what it finds' % (cls.name, meth), f,
+                    okk and okr, 'table[%s] returned' % param if okk and okr else
+                    ('the key looked up is %s, not the argument %s' % (
+                        ast.unparse(keys[0]) if keys else None, param) if not okk else
+                     'the value returned is not the table entry'))
 
 
 def _writer_header(ctx):
